@@ -1,5 +1,6 @@
 """shared generator for the future/promise cell scenarios (C01, C02)"""
-import itertools, random
+import itertools, os, random, tempfile
+import vlib
 from vlib import Case
 
 ENGINES = ["cell_int", "cell_void", "cell_uptr", "cell_ref", "cell_cnt"]
@@ -15,7 +16,7 @@ def mk(engine, name, resolvers, waiters, sched, order=None):
 
 def gen(seed, tier, focus):
     rng = random.Random(seed * 1000003 + (101 if focus == "resolvers" else 202))
-    n = 500 if tier == "quick" else 6000
+    n = (500 if focus == "resolvers" else 1200) if tier == "quick" else (6000 if focus == "resolvers" else 4000)
     cases = []
     for i in range(n):
         eng = ENGINES[i % len(ENGINES)]
@@ -37,7 +38,9 @@ def gen(seed, tier, focus):
         else:               # mostly last-enabled first
             sched = [rng.choice([5, 4, 3, 0]) for _ in range(L)]
         cases.append(mk(eng, "%s%d" % (focus[0], i), res, wai, sched, order))
-    if tier != "quick":
+    if tier != "quick" and focus == "waiters":
+        cases += exhaustive_2w1r()
+    if tier != "quick" and focus == "resolvers":
         # systematic: every schedule prefix of length 7 over 3 choices for small configurations
         cfgs = [([(0, 5), (1, 6)], [0]), ([(0, 5), (2, 0)], [1]), ([(0, 5)], [0, 2]), ([(3, 0), (0, 9)], [3]),
                 ([(0, 5)], [1, 1]), ([], [0, 1]), ([(1, 4), (0, 5), (2, 0)], [])]
@@ -46,6 +49,31 @@ def gen(seed, tier, focus):
             for pre in itertools.product(range(3), repeat=7):
                 cases.append(mk("cell_int", "x%d" % j, res, wai, pre)); j += 1
     return cases
+
+
+def exhaustive_2w1r():
+    """every schedule of 2 waiters (all 15 unordered kind pairs) x 1 resolver (each of the 6 explicit kinds, or none =
+    the destructor of the shared promise resolves), enumerated by the extracted model itself (CellDefs.cell_enum)"""
+    cfgs = []
+    for r in [None, (0, 5), (1, 6), (2, 0), (3, 0), (4, 7), (5, 8)]:
+        for w1 in range(5):
+            for w2 in range(w1, 5):
+                cfgs.append((([r] if r else []), [w1, w2]))
+    enum = [Case("cell_enum", "e%d" % i, [[1, k, d] for (k, d) in res] + [[2, k] for k in wai])
+            for i, (res, wai) in enumerate(cfgs)]
+    fd, path = tempfile.mkstemp(prefix="cell_enum.", dir="/var/tmp"); os.close(fd)
+    try:
+        vlib.write_cases(enum, path)
+        scheds = vlib.modelrun(path)
+    finally:
+        os.remove(path)
+    out = []
+    for i, (res, wai) in enumerate(cfgs):
+        eng = ENGINES[i % len(ENGINES)]
+        for j, line in enumerate(scheds["e%d" % i]):
+            sched = [int(x) for x in line.split()][1:]
+            out.append(mk(eng, "a%d_%d" % (i, j), res, wai, sched))
+    return out
 
 
 def nontrivial(case, model_obs):
